@@ -18,6 +18,9 @@ use std::rc::Rc;
 use std::sync::Arc;
 use std::task::{Context, Poll};
 
+/// Upper end of the poll bound. A terminating run needs about one poll per field and per chunk (the
+/// scripted source never answers Pending), so the bound per case is 1000 + 64 x body length, at most
+/// this value.
 pub const POLL_BOUND: u64 = 200_000;
 
 struct Src {
@@ -60,6 +63,7 @@ fn run(content_type: &[u8], body: &[u8], mode: Mode, read_fields: bool) -> Out {
     let waker = wk.waker();
     let mut cx = Context::from_waker(&waker);
     let mut polls = 0u64;
+    let poll_bound = POLL_BOUND.min(1000 + 64 * body.len() as u64);
     let (mut fields, mut chunks_out, mut bytes_out) = (0u32, 0u64, 0usize);
     let mut touched = 0usize;
     let busy = |polls: u64, where_: &str| Out::Bad {
@@ -68,7 +72,7 @@ fn run(content_type: &[u8], body: &[u8], mode: Mode, read_fields: bool) -> Out {
     };
     let end: String = 'outer: loop {
         polls += 1;
-        if polls > POLL_BOUND {
+        if polls > poll_bound {
             return busy(polls, "Multipart::poll_next");
         }
         match Pin::new(&mut mp).poll_next(&mut cx) {
@@ -92,7 +96,7 @@ fn run(content_type: &[u8], body: &[u8], mode: Mode, read_fields: bool) -> Out {
                 }
                 loop {
                     polls += 1;
-                    if polls > POLL_BOUND {
+                    if polls > poll_bound {
                         return busy(polls, "Field::poll_next");
                     }
                     match Pin::new(&mut field).poll_next(&mut cx) {
